@@ -60,6 +60,24 @@ def density_cases(ctx, count):
                 ids = list(range(pos, pos + k))
                 c = pts[ids].astype(float).reshape(-1, 1)
                 try:
+                    if rng.random() < 0.25 and pos + k < n:
+                        # an update of ANOTHER chunk between query(A) and update(A): query(A); update(B, []); update(A, query's result) -
+                        # whatever query remembered about A must not survive the commitment of B
+                        k2 = int(rng.integers(1, min(4, n - pos - k) + 1))
+                        ids2 = list(range(pos + k, pos + k + k2))
+                        c2 = pts[ids2].astype(float).reshape(-1, 1)
+                        idxA = qs.query(c, clf=clf)
+                        ops.append((False, ids))
+                        obs.append((list(qs.budget_manager_.last_mask_), [float(np.ravel(w)[0]) for w in getattr(qs, "window_", [])], list(getattr(qs, "min_dist_", []))))
+                        qs.update(c2, [])
+                        ops.append((True, ids2))
+                        obs.append((list(qs.budget_manager_.last_update_mask_), [float(np.ravel(w)[0]) for w in qs.window_], list(qs.min_dist_)))
+                        qs.update(c, idxA)
+                        ops.append((True, ids))
+                        obs.append((list(qs.budget_manager_.last_update_mask_), [float(np.ravel(w)[0]) for w in qs.window_], list(qs.min_dist_)))
+                        pos += k + k2
+                        ctx.hist["density:update_of_another_chunk_in_between"] += 1
+                        continue
                     for _ in range(int(rng.integers(0, 3))):          # 0-2 queries before the update
                         idx = qs.query(c, clf=clf)
                         mask = list(qs.budget_manager_.last_mask_)
